@@ -354,6 +354,9 @@ void ares_dnsrec_convert_cb(void *arg, ares_status_t status, size_t timeouts,
                             const ares_dns_record_t *dnsrec);
 
 void ares_free_query(ares_query_t *query);
+/*! Unlink a query from every channel index (all queries, qid, timeout,
+ *  connection) without freeing it.  Safe to call more than once. */
+void ares_detach_query(ares_query_t *query);
 
 unsigned short ares_generate_new_id(ares_rand_state *state);
 ares_status_t  ares_expand_name_validated(const unsigned char *encoded,
